@@ -4,6 +4,54 @@ import WhVerif.Lemmas.C15
 of the genotype list with the allele-matrix columns, the genotype dict. -/
 namespace WhVerif.C15
 
+/-! ## `isort` -/
+
+theorem insertBy_perm {α} (le : α → α → Bool) (x : α) (l : List α) : (insertBy le x l).Perm (x :: l) := by
+  induction l with
+  | nil => simp [insertBy]
+  | cons y ys ih =>
+    unfold insertBy
+    split
+    · exact List.Perm.refl _
+    · exact (List.Perm.cons y ih).trans (List.Perm.swap x y ys)
+
+theorem isort_perm {α} (le : α → α → Bool) (l : List α) : (isort le l).Perm l := by
+  induction l with
+  | nil => simp [isort]
+  | cons x xs ih => exact (insertBy_perm le x _).trans (List.Perm.cons x ih)
+
+theorem insertBy_sorted {α} (le : α → α → Bool) (htrans : ∀ a b c, le a b = true → le b c = true → le a c = true)
+    (htotal : ∀ a b, le a b = true ∨ le b a = true) (x : α) (l : List α)
+    (h : l.Pairwise (fun a b => le a b = true)) : (insertBy le x l).Pairwise (fun a b => le a b = true) := by
+  induction l with
+  | nil => simp [insertBy]
+  | cons y ys ih =>
+    rw [List.pairwise_cons] at h
+    unfold insertBy
+    by_cases hxy : le x y = true
+    · simp only [hxy, if_true, List.pairwise_cons]
+      refine ⟨?_, h⟩
+      intro a ha
+      rcases List.mem_cons.mp ha with rfl | ha
+      · exact hxy
+      · exact htrans _ _ _ hxy (h.1 a ha)
+    · have hf : le x y = false := by simpa using hxy
+      simp only [hf, Bool.false_eq_true, if_false, List.pairwise_cons]
+      refine ⟨?_, ih h.2⟩
+      intro a ha
+      rcases List.mem_cons.mp ((insertBy_perm le x ys).subset ha) with rfl | ha
+      · rcases htotal a y with h' | h'
+        · exact absurd h' hxy
+        · exact h'
+      · exact h.1 a ha
+
+theorem isort_sorted {α} (le : α → α → Bool) (htrans : ∀ a b c, le a b = true → le b c = true → le a c = true)
+    (htotal : ∀ a b, le a b = true ∨ le b a = true) (l : List α) :
+    (isort le l).Pairwise (fun a b => le a b = true) := by
+  induction l with
+  | nil => simp [isort]
+  | cons x xs ih => exact insertBy_sorted le htrans htotal x _ ih
+
 /-! ## `insertPos` / `posSet` -/
 
 theorem mem_insertPos (p x : Nat) (l : List Nat) : x ∈ insertPos p l ↔ x = p ∨ x ∈ l := by
@@ -227,7 +275,7 @@ theorem dictCount_foldl (l : List Allele) (d : List (Allele × Nat)) (b : Allele
 theorem dictCount_genotypeDict (gt : List Allele) (a : Allele) : dictCount (genotypeDict gt) a = gt.count a := by
   unfold genotypeDict asVector
   rw [dictCount_foldl]
-  simp [dictCount, (List.mergeSort_perm gt _).count_eq]
+  simp [dictCount, (isort_perm _ gt).count_eq]
 
 /-- keys stay distinct -/
 theorem dictIncr_keys (d : List (Allele × Nat)) (a : Allele) (h : (d.map (·.1)).Nodup) :
